@@ -73,6 +73,15 @@ struct rec_mpi_cb
 static hep::callback_mode const g_modes[] = {hep::callback_mode::silent, hep::callback_mode::silent_and_write_chkpt,
     hep::callback_mode::verbose, hep::callback_mode::verbose_and_write_chkpt};
 
+// the callback is constructed from a temporary file name and used after that temporary is gone (the usual way to
+// write it: `hep::callback<C> cb(mode, "run.chkpt", target);`)
+template <typename C, typename T>
+static hep::callback<C> make_cb(int mode, std::string const& file, T target)
+{
+    hep::callback<C> cb(g_modes[mode], std::string(file.c_str()), target);
+    return cb;
+}
+
 struct mode_out { std::string text; std::vector<std::string> seen; std::string printed; bool file_exists = false; std::string file; };
 
 // kind 0 plain, 1 vegas, 2 multi-channel with `channels` and weight pattern `wp`
@@ -110,13 +119,13 @@ static mode_out run_serial(int kind, sz channels, int wp, int mode, std::vector<
         if (kind == 0)
         {
             using C = hep::plain_chkpt_with_rng<E, T>;
-            auto c = hep::plain(hep::make_integrand<T>(pf<T>(), 1), calls, hep::make_plain_chkpt<T, E>(E()), rec_cb<C>{hep::callback<C>(g_modes[mode], file, target), &out.seen});
+            auto c = hep::plain(hep::make_integrand<T>(pf<T>(), 1), calls, hep::make_plain_chkpt<T, E>(E()), rec_cb<C>{make_cb<C>(mode, file, target), &out.seen});
             out.text = text_of(c);
         }
         else if (kind == 1)
         {
             using C = hep::vegas_chkpt_with_rng<E, T>;
-            auto c = hep::vegas(hep::make_integrand<T>(pf<T>(), 1), calls, hep::make_vegas_chkpt<T, E>(4, T(0.5), E()), rec_cb<C>{hep::callback<C>(g_modes[mode], file, target), &out.seen});
+            auto c = hep::vegas(hep::make_integrand<T>(pf<T>(), 1), calls, hep::make_vegas_chkpt<T, E>(4, T(0.5), E()), rec_cb<C>{make_cb<C>(mode, file, target), &out.seen});
             out.text = text_of(c);
         }
         else
@@ -125,7 +134,7 @@ static mode_out run_serial(int kind, sz channels, int wp, int mode, std::vector<
             vf::pl_map<T> map;
             for (sz i = 0; i != channels; ++i) map.split.push_back(T(i + 1) / T(channels + 1));
             auto c = hep::multi_channel(hep::make_multi_channel_integrand<T>(mf<T>(), 1, map, 1, channels), calls,
-                hep::make_multi_channel_chkpt<T, E>(weight_pattern<T>(channels, wp), T(0.01L), T(0.375), E()), rec_cb<C>{hep::callback<C>(g_modes[mode], file, target), &out.seen});
+                hep::make_multi_channel_chkpt<T, E>(weight_pattern<T>(channels, wp), T(0.01L), T(0.375), E()), rec_cb<C>{make_cb<C>(mode, file, target), &out.seen});
             out.text = text_of(c);
         }
     }
